@@ -627,6 +627,21 @@ fn battery() -> Vec<Entry> {
         "ValueFields" => ValueFields,
     ]);
     all.extend(entries!["derived-body-replaced":
+        "WrapBodyVec" => WrapBodyVec,
+        "WrapBodyStruct" => WrapBodyStruct,
+        "ChoiceBody" => ChoiceBody,
+        "Vec<ChoiceBody>" => Vec<ChoiceBody>,
+        "Vec<BodyVec>" => Vec<BodyVec>,
+    ]);
+    all.extend(entries!["derived-header":
+        "HeaderBodyLastVec" => HeaderBodyLastVec,
+        "Vec<HeaderBodyLastVec>" => Vec<HeaderBodyLastVec>,
+        "Vec<HeaderBodyLastOpt>" => Vec<HeaderBodyLastOpt>,
+        "Vec<HeaderBodyLastStruct>" => Vec<HeaderBodyLastStruct>,
+        "Generic1<Vec<HeaderBodyLastOpt>>" => Generic1<Vec<HeaderBodyLastOpt>>,
+        "Vec<HeaderBodyOpt>" => Vec<HeaderBodyOpt>,
+    ]);
+    all.extend(entries!["derived-body-replaced":
         "BodyPrim" => BodyPrim,
         "BodyStruct" => BodyStruct,
         "BodyVec" => BodyVec,
